@@ -57,6 +57,7 @@ structure St where
   peak : Int := 0                        -- the largest fleet seen
   booked : Int := 0                      -- Σ actual × cycle over the logged cycles
   nlogs : Int := 0
+  unknownSince : List (String × Int) := []  -- miners directed to the contract's destination that the watcher's account does not list
 
 def total (st : St) : Int := st.miners.foldl (fun a m => a + m.2) 0
 def hrOf (st : St) (id : String) : Int := ((st.miners.find? (·.1 = id)).map (·.2)).getD 0
@@ -197,6 +198,20 @@ def mon (st : St) (op : List String) (outs : List (List String)) : St × List St
            [s!"PROP a miner that left the contract is not replaced: {amount} GH/s have been owed for {st4.now - since} s, no task was handed out, and {(big.map fun (e : String × Int) => e.1)} (of {(big.map fun (e : String × Int) => hrOf st4 e.1)} GH/s) had no work for at least 25 s with {q.rem} s of the cycle left"])
         else (st4, [])
     | _, _ => (st4, [])
+  -- the watcher knows who works for it: a miner directed to the contract's destination is listed as a full or a partial miner
+  -- (it is what the watcher sheds when it is ahead and releases when the contract stops)
+  let placedOn : List String := (((outs.find? (·.head? = some "miners")).getD []).drop 1).filterMap fun t => match t.splitOn "=" with
+    | [m, w] => if w.startsWith "c1@" then some m else none
+    | _ => none
+  let (st5, knownC) := match acct with
+    | some q =>
+      let unk := placedOn.filter fun i => q.conn.contains i && !q.full.contains i && !q.part.contains i
+      let since := unk.map fun i => (i, ((st5.unknownSince.find? (fun (e : String × Int) => e.1 = i)).map (fun (e : String × Int) => e.2)).getD st5.now)
+      let old := since.filter fun (e : String × Int) => decide (st5.now - e.2 ≥ 20)
+      ({ st5 with unknownSince := since },
+       if old.isEmpty ∨ ended then [] else
+         [s!"PROP miners {old.map fun (e : String × Int) => e.1} have been directed to the contract's destination for {old.map fun (e : String × Int) => st5.now - e.2} s and the watcher's account lists them neither as full nor as partial miners (full {q.full}, partial {q.part}): they can neither be shed nor released"])
+    | none => ({ st5 with unknownSince := [] }, [])
   let st6 := { st5 with prev := acct, prevNow := st5.now, prevDelivered := delivered }
   match st6.t0 with
   | none => (st6, logComplaints)
@@ -211,7 +226,7 @@ def mon (st : St) (op : List String) (outs : List (List String)) : St × List St
       [s!"PROP delivery runs ahead of the contracted rate by {lead} GHs, more than one cycle's worth ({cycleWorth}): delivered {delivered}, due {due} after {el} s"] else []
     let c2 := if st6.enough ∧ el > st6.cycle ∧ lag > cycleWorth + slack then
       [s!"PROP delivery falls behind the contracted rate by {lag} GHs, more than one cycle's worth ({cycleWorth}) although enough hashrate is connected: delivered {delivered}, due {due} after {el} s"] else []
-    (st6, logComplaints ++ booksC ++ clockC ++ replC ++ oblC ++ c1 ++ c2)
+    (st6, logComplaints ++ booksC ++ clockC ++ replC ++ oblC ++ knownC ++ c1 ++ c2)
 
 def monitor : Monitor := { σ := St, init := {}, step := mon }
 
